@@ -212,6 +212,7 @@ class Harness:
         validate=True,
         group=1,
         timeout_s=600,
+        fp_probe=True,
     ):
         self.name = name
         self.fn = fn
@@ -224,6 +225,7 @@ class Harness:
         self.validate = validate
         self.group = group
         self.timeout_s = timeout_s
+        self.fp_probe = fp_probe
 
     def configs(self, tier, seed):
         c = self._configs
@@ -389,7 +391,7 @@ def dyadic_refine(eng, ctx, extra, odd=False, quick=False):
     if not reals:
         return None
     levels = ((None, 50),) if odd else ((0, 1000), (1, 1000), (3, 10000), (6, 100000))
-    if quick:
+    if quick and not odd:
         levels = ((0, 1000), (3, 10000))
     for m, bound in levels:
         cons = []
@@ -445,11 +447,14 @@ def run_job(prop, prop_mod, harness, cfg, tier, seed, known_pass=None):
         "violations": [],
         "unreproduced": [],
         "witness_validated": 0,
+        "fp_probes": 0,
         "witness_uncertain_claims": 0,
         "samples": [],
         "messages": [],
     }
     max_validate = 1000000 if tier == "thorough" else 12
+    fp_probe = harness.fp_probe
+    max_probe = 1000 if tier == "thorough" else 6
     max_viol = 3
     tracer = _Tracer()
     state = {"ctx": None, "npaths": 0}
@@ -566,6 +571,16 @@ def run_job(prop, prop_mod, harness, cfg, tier, seed, known_pass=None):
             if mdl is not None:
                 vals = model_inputs(ctx, mdl)
                 res = run_concrete(prop_mod, harness, cfg, vals, seed)
+                if res["status"] == "ok" and fp_probe and rec["fp_probes"] < max_probe:
+                    # second witness with non-representable inputs (multiples of 1/97): exercises the rounding
+                    # of the real double arithmetic, which dyadic witnesses never do
+                    gm = dyadic_refine(eng, ctx, [], odd=True, quick=True)
+                    if gm is not None:
+                        gvals = model_inputs(ctx, gm)
+                        gres = run_concrete(prop_mod, harness, cfg, gvals, seed)
+                        rec["fp_probes"] += 1
+                        if gres["status"] == "fail":
+                            res, vals = gres, gvals
                 if res["status"] == "ok":
                     rec["witness_validated"] += 1
                     rec["witness_uncertain_claims"] += res["uncertain"]
